@@ -259,13 +259,20 @@ CATCHSTMT = 'p0 = this_player (); e = catch (%s); VL ("catch " + e + (e && this_
 class C05(Prop):
     id = "C05"
     title = "after any LPC error the machine state is as before the failed call"
-    lean_modules = ["NV.C05.Props", "NV.C05.Witness"]
-    theorems = ["NV.C05.restore_is_inverse", "NV.C05.handlers_run_exactly_once", "NV.C05.handler_not_run_on_normal_exit",
+    lean_modules = ["NV.C05.Exec", "NV.C05.Props", "NV.C05.Witness"]
+    theorems = ["NV.C05.exec_keeps_extension", "NV.C05.top_restores", "NV.C05.catch_yields_message_exec",
+                "NV.C05.guards_reset_first_level", "NV.C05.exec_good", "NV.C05.execCore_good", "NV.C05.raise_rspec",
+                "NV.C05.runHandler_spec",
+                "NV.C05.restore_is_inverse", "NV.C05.handlers_run_exactly_once", "NV.C05.handler_not_run_on_normal_exit",
                 "NV.C05.catch_yields_message", "NV.C05.raise_sets_catch_value", "NV.C05.throw_sets_catch_value",
                 "NV.C05.context_chain_restored_catch", "NV.C05.context_chain_restored_safe",
                 "NV.C05.context_chain_restored_top", "NV.C05.raise_not_ok", "NV.C05.guards_reset",
                 "NV.C05.install_atomic", "NV.C05.restoreContext_ext", "NV.C05.popN_append"]
-    witness_theorems = ["NV.C05.negative_pop_is_a_crash", "NV.C05.changed_register_is_not_restored"]
+    witness_theorems = ["NV.C05.prefix_input_to_leaves_sentence", "NV.C05.fixed_input_to_leaves_nothing",
+                        "NV.C05.prefix_safe_apply_surplus_crashes", "NV.C05.fixed_safe_apply_surplus_recovers",
+                        "NV.C05.prefix_safe_apply_leaks_argument", "NV.C05.fixed_safe_apply_end_to_end",
+                        "NV.C05.negative_pop_is_a_crash", "NV.C05.changed_register_is_not_restored",
+                        "NV.C05.throw_does_not_reset_guards", "NV.C05.error_resets_guards_example"]
     consts = [("frameFunction", "FRAME_FUNCTION"), ("frameFunp", "FRAME_FUNP"), ("frameCatch", "FRAME_CATCH"),
               ("frameFake", "FRAME_FAKE"), ("frameMask", "FRAME_MASK"),
               ("esStackFull", "ES_STACK_FULL"), ("esMaxEvalCost", "ES_MAX_EVAL_COST"),
